@@ -198,3 +198,29 @@ pub assume_specification<T, E> [std::result::Result::<T, E>::unwrap_or] (r: std:
 pub assume_specification<T: Ord + core::marker::Destruct> [std::cmp::min] (a: T, b: T) -> (r: T)
     ensures T::obeys_cmp_spec() ==> r == (if a.cmp_spec(&b) == Ordering::Greater { b } else { a }),
 ;
+
+// ---- further std API of the same types (declared so that equivalent rewrites of the code stay decidable)
+impl Default for Duration {
+    #[verifier::external_body] fn default() -> (r: Duration) ensures r.ns@ == 0 { unimplemented!() }
+}
+impl Duration {
+    #[verifier::external_body]
+    pub fn as_secs(&self) -> (r: u64) ensures r as int == (self.ns@ as int) / NS() { unimplemented!() }
+    #[verifier::external_body]
+    pub fn from_millis(ms: u64) -> (r: Duration) ensures r.ns@ == ms * 1_000_000 { unimplemented!() }
+    #[verifier::external_body]
+    pub fn saturating_sub(self, rhs: Duration) -> (r: Duration)
+        ensures r.ns@ == (if self.ns@ >= rhs.ns@ { self.ns@ - rhs.ns@ } else { 0 }) { unimplemented!() }
+}
+impl SystemTime {
+    #[verifier::external_body]
+    pub fn elapsed(&self) -> (r: Result<Duration, SystemTimeError>)
+        ensures exists|t: int| sys_clock_read(t)
+            && (t >= self.t@ ==> (r matches Ok(d) && d.ns@ == t - self.t@)) && (t < self.t@ ==> r is Err),
+    { unimplemented!() }
+}
+pub assume_specification<T: core::default::Default, E> [core::result::Result::<T, E>::unwrap_or_default] (r: Result<T, E>) -> (res: T)
+    ensures
+        r matches Ok(v) ==> res == v,
+        r is Err ==> call_ensures(T::default, (), res),
+;
